@@ -93,6 +93,7 @@ type vSim struct {
 	tickWG  sync.WaitGroup // handler goroutines (incl. zombies of killed processes)
 	maintNow, lastSwitchNow, h1Health string // C05: driver-side copies of tree values (refreshed per round)
 	activeNow []string
+	lastActiveList []string // C09: last value written to active_nodes
 	lastSrcC1 string // C16: source and thread state of the cascade replica at the start of the round
 	c1WasRepl bool
 	lastMaster atomic.Value // last value written to the master key (string)
